@@ -15,7 +15,12 @@
 //     slicing, len, append, encoding/binary getters, calls to other translated functions;
 //   - statements: declarations, assignments to locals / fields / array elements (state is threaded
 //     functionally; a method that writes through its receiver returns the new value), if/else,
-//     switch without fallthrough, return, copy and encoding/binary putters on slices of a variable.
+//     switch without fallthrough (on integers or strings), return, copy and encoding/binary putters on
+//     slices of a variable; two loop forms: the counted loop and `for _, x := range L` (a right fold when
+//     the body only returns early, a left fold of the assigned variables when it never leaves early);
+//   - strings: bytes (Hs.Str) by default; in targets marked negoStr they are the negotiation model's
+//     Nego.Str with ++, ==, constant indexing of a []string, and internal.Split(·, ";"), strings.SplitN(·, "=", 2),
+//     strconv.Atoi/Itoa, strings.Join read as that model's primitives (trusted, differentially tested).
 //
 // Everything else makes gotrans fail for that target (the check then reports the broken tie).  A
 // *segment* target translates a run of statements inside a larger function: it yields
@@ -162,6 +167,11 @@ type target struct {
 	// `args → (new buffer × result)` (an input of the definition, like an oracle, but depending on its arguments)
 	freeStmt map[string][]string // like free, for calls in statement position: the function parameter takes the call's arguments
 	// and the result of everything that follows (`callee args rest : R`)
+	negoStr bool // Go `string` is `Nego.Str` (List Char, one Char per byte) and `[]string` is `List Nego.Str` in this target; string
+	// constants are `"…".toList`, `+` is `++`, `==` is list equality, and the string-library calls are the negotiation model's own
+	// primitives, which stay the TRUSTED reading of the Go library (sampled against the real functions by the differential suite):
+	// internal.Split(·, ";") = Nego.split, strings.SplitN(·, "=", 2) = goSplitN2 (the list view of Nego.splitN2),
+	// `x, _ := strconv.Atoi(·)` = Nego.atoi, strconv.Itoa = Nego.itoa, strings.Join = Nego.join
 	doc string
 }
 
@@ -306,6 +316,12 @@ var targets = []target{
 	{pkg: "internal", fn: "Max", lean: "internal_Max"},
 	{pkg: "internal", fn: "Min", lean: "internal_Min"},
 	{pkg: "internal", fn: "BinaryPow", lean: "internal_BinaryPow"},
+	{pkg: "gws", fn: "permessageNegotiation", lean: "permessageNegotiation", negoStr: true,
+		doc: "the parser of a Sec-WebSocket-Extensions value: the defaults, one left fold over the `;`-separated parameters (the `switch pair[0]`), then both window sizes raised to at least 8; the result is the tuple of ALL fields of PermessageDeflate in declaration order (Enabled, Level, Threshold, PoolSize stay Go's zero values). Strings are Nego.Str; internal.Split, strings.SplitN, strconv.Atoi are the model's trusted primitives"},
+	{pkg: "gws", fn: "PermessageDeflate.genRequestHeader", lean: "PermessageDeflate_genRequestHeader", negoStr: true,
+		doc: "the extension offer a client sends: the option list built by the appends, joined by \"; \" (strings are Nego.Str; strconv.Itoa, strings.Join are the model's trusted primitives)"},
+	{pkg: "gws", fn: "PermessageDeflate.genResponseHeader", lean: "PermessageDeflate_genResponseHeader", negoStr: true,
+		doc: "the extension response a server sends: the option list built by the appends, joined by \"; \" (strings are Nego.Str; strconv.Itoa, strings.Join are the model's trusted primitives)"},
 }
 
 type translator struct {
@@ -314,6 +330,7 @@ type translator struct {
 	order   []string
 	byFunc  map[string]string // "gws.frameHeader.GetFIN" -> target key (whole-function targets only)
 	targets map[string]target
+	negoStr bool // the target being translated reads Go strings as Nego.Str (target.negoStr)
 }
 
 type param struct{ name, typ string }
@@ -350,6 +367,9 @@ func (tr *translator) leanType(t types.Type) (string, bool) {
 		case types.Int, types.UntypedInt, types.Int32, types.Int64:
 			return "Int", true // signed integers are unbounded here: the targets never rely on their overflow
 		case types.String, types.UntypedString:
+			if tr.negoStr {
+				return "Nego.Str", true // a Go string is its bytes, one Char per byte (the negotiation model's strings)
+			}
 			return "Hs.Str", true // a Go string is its bytes
 		}
 	case *types.Slice:
@@ -357,6 +377,9 @@ func (tr *translator) leanType(t types.Type) (string, bool) {
 			return "(List UInt8)", true
 		}
 		if b, ok := u.Elem().Underlying().(*types.Basic); ok && b.Kind() == types.String {
+			if tr.negoStr {
+				return "(List Nego.Str)", true
+			}
 			return "(List Hs.Str)", true
 		}
 	case *types.Map:
@@ -562,6 +585,9 @@ func (f *fn) constant(tv types.TypeAndValue, n ast.Node) string {
 		}
 		return "false"
 	case constant.String:
+		if f.t.negoStr {
+			return strconvQuote(constant.StringVal(tv.Value)) + ".toList"
+		}
 		return fmt.Sprintf("(Sha1.asc %s)", strconvQuote(constant.StringVal(tv.Value)))
 	case constant.Int:
 		s := tv.Value.ExactString()
@@ -712,6 +738,9 @@ func (f *fn) expr(e ast.Expr) string {
 		itv := f.p.info.Types[v.Index]
 		if itv.Value == nil {
 			f.bad(e, "index is not a constant")
+		}
+		if f.lt(v.X) == "(List Nego.Str)" { // out of range would panic in Go; totalised like goIdx
+			return fmt.Sprintf("((%s).getD %s [])", f.expr(v.X), itv.Value.ExactString())
 		}
 		return fmt.Sprintf("(goIdx %s %s)", f.expr(v.X), itv.Value.ExactString())
 	case *ast.SliceExpr:
@@ -866,6 +895,9 @@ func (f *fn) binary(v *ast.BinaryExpr) string {
 		if isU || lt == "Int" {
 			return fmt.Sprintf("(%s + %s)", x, y)
 		}
+		if lt == "Nego.Str" { // string concatenation
+			return fmt.Sprintf("(%s ++ %s)", x, y)
+		}
 	case token.SUB:
 		if isU || lt == "Int" {
 			return fmt.Sprintf("(%s - %s)", x, y)
@@ -1007,6 +1039,11 @@ func (f *fn) call(c *ast.CallExpr) string {
 			case "len":
 				return fmt.Sprintf("(Int.ofNat (%s).length)", f.expr(c.Args[0]))
 			case "make":
+				if f.lt(c) == "(List Nego.Str)" && len(c.Args) >= 2 {
+					if tv := f.p.info.Types[c.Args[1]]; tv.Value != nil && tv.Value.ExactString() == "0" {
+						return "([] : List Nego.Str)"
+					}
+				}
 				if f.lt(c) == "(List UInt8)" && len(c.Args) >= 2 {
 					if tv := f.p.info.Types[c.Args[1]]; tv.Value != nil && tv.Value.ExactString() == "0" {
 						return "([] : List UInt8)"
@@ -1055,7 +1092,19 @@ func (f *fn) call(c *ast.CallExpr) string {
 		}
 	}
 	fname := text[:min(len(text), strings.Index(text+"(", "("))]
+	argText := func(i int) string { return strings.Join(strings.Fields(f.src(c.Args[i])), "") }
 	switch {
+	case f.t.negoStr && (fname == "internal.Split" || fname == "Split") && len(c.Args) == 2 && argText(1) == `";"`:
+		return fmt.Sprintf("(Nego.split %s)", f.expr(c.Args[0]))
+	case f.t.negoStr && fname == "strings.SplitN" && len(c.Args) == 3 && argText(1) == `"="` && argText(2) == "2":
+		return fmt.Sprintf("(goSplitN2 %s)", f.expr(c.Args[0]))
+	case f.t.negoStr && fname == "strconv.Itoa":
+		return fmt.Sprintf("(Nego.itoa %s)", f.expr(c.Args[0]))
+	case f.t.negoStr && fname == "strings.Join" && len(c.Args) == 2:
+		return fmt.Sprintf("(Nego.join %s %s)", f.expr(c.Args[1]), f.expr(c.Args[0]))
+	case (fname == "internal.WithDefault" || fname == "WithDefault" || strings.HasPrefix(fname, "internal.WithDefault[")) && len(c.Args) == 2 && f.lt(c.Args[0]) == "Int":
+		// WithDefault[T comparable](raw, new): new if raw is T's zero value, else raw
+		return fmt.Sprintf("(if (%s == (0 : Int)) then %s else %s)", f.expr(c.Args[0]), f.expr(c.Args[1]), f.expr(c.Args[0]))
 	case fname == "base64.StdEncoding.EncodeToString":
 		return fmt.Sprintf("(Base64.encode %s)", f.expr(c.Args[0]))
 	case fname == "strings.Join" && strings.Join(strings.Fields(f.src(c.Args[1])), "") == `","`:
@@ -1546,10 +1595,24 @@ func (f *fn) block(list []ast.Stmt, k cont) string {
 	}
 	// `pd := T{F: e, …}` (a struct VALUE, not &T{…}) that is used as a value afterwards: one Lean local per field, missing
 	// fields are zero
-	if as, ok := s.(*ast.AssignStmt); ok && as.Tok == token.DEFINE && len(as.Lhs) == 1 && len(as.Rhs) == 1 {
-		if lit, ok := as.Rhs[0].(*ast.CompositeLit); ok {
+	{
+		var declName string
+		var declRhs ast.Expr
+		if as, ok := s.(*ast.AssignStmt); ok && as.Tok == token.DEFINE && len(as.Lhs) == 1 && len(as.Rhs) == 1 {
+			if id, ok := as.Lhs[0].(*ast.Ident); ok {
+				declName, declRhs = id.Name, as.Rhs[0]
+			}
+		}
+		if ds, ok := s.(*ast.DeclStmt); ok { // `var pd = T{F: e, …}`
+			if gd, ok := ds.Decl.(*ast.GenDecl); ok && gd.Tok == token.VAR && len(gd.Specs) == 1 {
+				if vs := gd.Specs[0].(*ast.ValueSpec); len(vs.Names) == 1 && len(vs.Values) == 1 && vs.Type == nil {
+					declName, declRhs = vs.Names[0].Name, vs.Values[0]
+				}
+			}
+		}
+		if lit, ok := declRhs.(*ast.CompositeLit); ok && declName != "" {
 			if st, ok := f.typeOf(lit).Underlying().(*types.Struct); ok && !isBuffer(f.typeOf(lit)) {
-				name := as.Lhs[0].(*ast.Ident).Name
+				name := declName
 				given := map[string]ast.Expr{}
 				for _, el := range lit.Elts {
 					kv, ok := el.(*ast.KeyValueExpr)
@@ -1953,8 +2016,37 @@ func (f *fn) block(list []ast.Stmt, k cont) string {
 		if !ok || st.Tok != token.DEFINE {
 			f.bad(s, "range loop form")
 		}
-		if len(f.assigned(st.Body)) != 0 {
-			f.bad(s, "range loop that assigns outer variables")
+		if vars := f.assigned(st.Body); len(vars) != 0 {
+			// a body that assigns outer variables and never leaves the loop early (no return/break/continue/goto, no nested
+			// loop): a LEFT fold over the list with the tuple of the assigned variables as the accumulator (like the counted
+			// loop below)
+			bad := false
+			ast.Inspect(st.Body, func(n ast.Node) bool {
+				switch b := n.(type) {
+				case *ast.ReturnStmt, *ast.ForStmt, *ast.RangeStmt, *ast.FuncLit, *ast.DeferStmt, *ast.GoStmt, *ast.LabeledStmt:
+					bad = true
+				case *ast.BranchStmt:
+					if b.Tok != token.FALLTHROUGH { // fallthrough is refused by the switch desugaring
+						bad = true
+					}
+				}
+				return true
+			})
+			coll := f.expr(st.X)
+			for _, v := range vars {
+				if v == leanIdent(xv.Name) || strings.Contains(coll, v) {
+					bad = true
+				}
+			}
+			if bad {
+				f.bad(s, "range loop body that assigns outer variables and may leave the loop early (or assigns the list)")
+			}
+			f.flush(&sb)
+			f.locals[xv.Name] = true
+			t := tuple(vars)
+			body := f.block(st.Body.List, func() string { return t })
+			fmt.Fprintf(&sb, "let %s := (%s).foldl (fun %s %s =>\n%s) %s\n", t, coll, t, leanIdent(xv.Name), indent(body), t)
+			return sb.String() + next()
 		}
 		bad := false
 		ast.Inspect(st.Body, func(n ast.Node) bool {
@@ -2025,6 +2117,14 @@ func (f *fn) tupleCall(st *ast.AssignStmt) (string, bool) {
 		return "", false
 	}
 	blank := func(e ast.Expr) bool { id, ok := e.(*ast.Ident); return ok && id.Name == "_" }
+	// `x, _ := strconv.Atoi(s)`: the number, 0 on a syntax error, saturated on overflow (Nego.atoi)
+	if f.t.negoStr && strings.Join(strings.Fields(f.src(c.Fun)), "") == "strconv.Atoi" && blank(st.Lhs[1]) && !blank(st.Lhs[0]) {
+		v := f.expr(c.Args[0])
+		if id, ok := st.Lhs[0].(*ast.Ident); ok && st.Tok == token.DEFINE {
+			f.locals[id.Name] = true
+		}
+		return fmt.Sprintf("let %s : Int := (Nego.atoi %s)", f.lvalueName(st.Lhs[0]), v), true
+	}
 	if sel, ok := c.Fun.(*ast.SelectorExpr); ok {
 		rt := f.typeOf(sel.X)
 		if rt != nil && isBuffer(rt) && sel.Sel.Name == "Read" && blank(st.Lhs[0]) && blank(st.Lhs[1]) {
@@ -2422,6 +2522,9 @@ func (tr *translator) translate(key string) *result {
 	}
 	tr.done[key] = nil
 	t := tr.targets[key]
+	savedNegoStr := tr.negoStr
+	tr.negoStr = t.negoStr
+	defer func() { tr.negoStr = savedNegoStr }()
 	p := tr.pkgs[t.pkg]
 	decl, ok := p.funcs[t.fn]
 	if !ok {
@@ -2699,6 +2802,7 @@ func main() {
 	repo := flag.String("repo", "/repo", "repository root")
 	out := flag.String("lean", "", "output Trans.lean")
 	cover := flag.String("cover", "", "write the source line ranges of the translated functions / segments (one per line) to this file")
+	dequeOut := flag.String("deque", "", "output TransDeque.lean (the deque dialect, deque.go)")
 	flag.Parse()
 	abs, _ := filepath.Abs(*repo)
 	fset := token.NewFileSet()
@@ -2746,6 +2850,11 @@ func main() {
 		sb.WriteString(out)
 	}
 	sb.WriteString("end Trans\n")
+	if *dequeOut != "" {
+		if err := os.WriteFile(*dequeOut, []byte(translateDeque(tr.pkgs["internal"])), 0o644); err != nil {
+			fail("%v", err)
+		}
+	}
 	if *cover != "" {
 		_ = os.WriteFile(*cover, []byte(strings.Join(coverLines, "\n")+"\n"), 0o644)
 	}
